@@ -67,7 +67,7 @@ func runC19(c *Ctx) {
 			vcs = append(vcs, ci)
 		}
 	}
-	c.obF("R19.1", val, "five-comparisons", len(vcs) == 5, "validate compares five categories", fmt.Sprintf("%d verify calls", len(vcs)))
+	c.obRF("R19.1", val, "five-comparisons", len(vcs) == 5, "validate compares five categories", fmt.Sprintf("%d verify calls", len(vcs)))
 	byName := map[string]*ssa.Call{}
 	for _, vc := range vcs {
 		_, a := callArgs(vc.Common())
@@ -130,7 +130,7 @@ func runC19(c *Ctx) {
 	for _, pr := range pairs {
 		vc := byName[pr.name]
 		if vc == nil {
-			c.obF("R19.1", val, "category-"+pr.name, false, "category "+pr.name+" is verified", "no verify call with that section name")
+			c.obRF("R19.1", val, "category-"+pr.name, false, "category "+pr.name+" is verified", "no verify call with that section name")
 			continue
 		}
 		_, a := callArgs(&vc.Call)
@@ -162,7 +162,7 @@ func runC19(c *Ctx) {
 		what string
 	}{{regs, "registrations"}, {exps, "expectations"}} {
 		ls := sliceLoops(vf, vIs(s.x))
-		c.obF("R19.1", vf, "scans-"+s.what, len(ls) >= 1, "verify scans the "+s.what, fmt.Sprintf("%d loops", len(ls)))
+		c.obRF("R19.1", vf, "scans-"+s.what, len(ls) >= 1, "verify scans the "+s.what, fmt.Sprintf("%d loops", len(ls)))
 		for _, l := range ls {
 			// no early exit: the loop is left only through its own test
 			inLoop := map[*ssa.BasicBlock]bool{l.Header: true}
@@ -306,7 +306,7 @@ func runC19(c *Ctx) {
 				c.obI("R19.2", lk, "handler-lookup-upper-cases", okK, "the handler lookup upper-cases the method like the registration does", "")
 			}
 		}
-		c.obF("R19.2", f, "reads-"+rd.field, n == 1, "the request-time reader reads the table validate enumerates", fmt.Sprintf("%d lookups", n))
+		c.obRF("R19.2", f, "reads-"+rd.field, n == 1, "the request-time reader reads the table validate enumerates", fmt.Sprintf("%d lookups", n))
 		if rd.field != "operations" {
 			// result keyed like the table
 			for _, in := range instrs(f) {
@@ -358,7 +358,7 @@ func runC19(c *Ctx) {
 			}
 			c.obI("R19.2", mu, "handler-table-path-verbatim", okK, "the per-method handler table is keyed by the operation's path exactly as the registry enumerates it (HandlerFor looks the router's path up verbatim)", "key "+describe(mu.Key))
 		}
-		c.obF("R19.2", nr, "fills-handler-table", n >= 1, "newRoutableUntypedAPI fills the handler table", "")
+		c.obRF("R19.2", nr, "fills-handler-table", n >= 1, "newRoutableUntypedAPI fills the handler table", "")
 	}
 	// the request-time tables of a route are built from the route's own final lists (consumers from consumes, producers from produces)
 	ruleAddRouteDefaults(c, "R19.2", "Consume")
@@ -415,7 +415,7 @@ func runC19(c *Ctx) {
 		for _, k := range keys {
 			c.obF("R19.2", without, "undoes-"+k, cleared[k], "WithoutJSONDefaults clears every default and registration WithJSONDefaults installs ("+k+")", "WithJSONDefaults sets "+k+" but WithoutJSONDefaults leaves it")
 		}
-		c.obF("R19.2", with, "json-defaults-set", len(keys) == 4, "WithJSONDefaults installs two default media types and two registrations", fmt.Sprintf("%d", len(keys)))
+		c.obRF("R19.2", with, "json-defaults-set", len(keys) == 4, "WithJSONDefaults installs two default media types and two registrations", fmt.Sprintf("%d", len(keys)))
 	}
 	c.min("R19.2", 30)
 
